@@ -559,8 +559,24 @@ class Unit:
                     for k in range(i2 - i1):
                         amap[i1 + k] = j1 + k
                 elif tag == 'replace':
-                    for k in range(i2 - i1):
-                        amap[i1 + k] = min(j1 + k, j2 - 1)
+                    if i2 - i1 == j2 - j1:
+                        for k in range(i2 - i1):
+                            amap[i1 + k] = j1 + k
+                    else:
+                        # blocks of different length (a line was added or removed next to changed ones): align each old line with
+                        # the most similar new line, in order, so that e.g. a loop header keeps its invariant block
+                        last = j1 - 1
+                        for k in range(i1, i2):
+                            best, bj = 0.0, None
+                            for j in range(max(last, j1), j2):
+                                r = difflib.SequenceMatcher(None, a[k], b[j], autojunk=False).ratio()
+                                if r > best:
+                                    best, bj = r, j
+                            if bj is not None and best >= 0.55:
+                                amap[k] = bj
+                                last = bj
+                            else:
+                                amap[k] = last
                 elif tag == 'delete':
                     for k in range(i1, i2):
                         amap[k] = j1 - 1   # after the line before the deletion (may be -1)
